@@ -1,3 +1,86 @@
-import GoldilocksVerif.Model.Ntt
+/-
+  C03 — "For every power-of-two size n up to the transform object's maximum domain size, every column count, every phase
+  and block setting (out-of-range values are clamped), every thread count, with or without a caller scratch buffer, and
+  with the destination equal to, distinct from, or null instead of the source, the forward transform delivers
+  out[k][c] = sum_j in[j][c]*w_n^(j*k) for all k and c, where w_n is the library's primitive n-th root of unity. When the
+  destination is a different buffer the source is left unchanged, and size 0 or zero columns is a no-op."
+
+  Statements about the hand model `Model/Ntt.lean` (a function-by-function transcription of ntt_goldilocks.{hpp,cpp},
+  tied to the code by the correspondence campaign of `./check C03`); the field operations inside the model are the
+  GENERATED scalar operations, whose correctness is C01.  `den : BitVec 64 → ZMod P` is the field view.
+  * all shapes: every d with 2^d ≤ maxDomainSize (the constructor exists iff log2 maxDomainSize ≤ 32), every ncols ≥ 1,
+    every nphase, nblock : Nat (clamped by the model as by the code), every destination mode, every input.
+  * thread count and caller scratch buffer do not exist in the sequential functional model (the scratch buffer is
+    the model's `aux`, whose initial content is irrelevant); they are covered by the correspondence campaign only.
+  * the model does index arithmetic on `Nat`; it mirrors the code's `int` / `u_int64_t` arithmetic for log2 n ≤ 30
+    (DESIGN.md §6, D12) — the theorems hold for the model up to 2^32.
+-/
+import GoldilocksVerif.Lemmas.NttTop
+
 namespace GoldilocksVerif.C03
+open GoldilocksVerif.Model.Ntt GoldilocksVerif.NttSpec Finset
+
+/-- `w_n` (n = 2^d) is the entry `W[d]` of the library's table, read through `Goldilocks::w(d)` -/
+theorem C03_omega_is_library_root (d : Nat) (hd : d ≤ 32) :
+    omega d = den (Gen.Scalar.w__rE (BitVec.ofNat 64 d)) := (mkObj_aux_den_w d hd).symm
+
+/-- `w_n` is a primitive n-th root of unity: `w_n^n = 1` and `w_n^m ≠ 1` for `0 < m < n` (n = 2^d, d ≤ 32) -/
+theorem C03_omega_primitive (d : Nat) (hd : d ≤ 32) :
+    omega d ^ (2 ^ d) = 1 ∧ ∀ m, 0 < m → m < 2 ^ d → omega d ^ m ≠ 1 :=
+  ⟨(omega_prim d hd).pow_n, (omega_prim d hd).ne_one⟩
+
+/-- C03 (main statement): the forward transform never aborts, returns the source unchanged when the destination is
+    another buffer (and the result in the source when it is the same or null), and delivers the DFT of every column. -/
+theorem C03_forward_transform (maxDomainSize extension : Nat) (o : Obj) (hobj : mkObj maxDomainSize extension = some o)
+    (hext : extension ≤ 1) (d : Nat) (hn : 2 ^ d ≤ maxDomainSize)
+    (ncols nphase nblock : Nat) (hnc : 1 ≤ ncols) (mode : DstMode) (dstB srcB : Buf)
+    (hsrc : srcB.size = 2 ^ d * ncols) (hdst : mode = .other → dstB.size = 2 ^ d * ncols) :
+    ∃ out, ntt o mode dstB srcB (2 ^ d) ncols nphase nblock false false
+        = .ok (out, if mode = .other then srcB else out) ∧
+      out.size = 2 ^ d * ncols ∧
+      ∀ k c, k < 2 ^ d → c < ncols →
+        den (out.getD (k * ncols + c) 0#64)
+          = ∑ j ∈ range (2 ^ d), den (srcB.getD (j * ncols + c) 0#64) * omega d ^ (j * k) := by
+  have hm : maxDomainSize ≠ 0 := by have := Nat.two_pow_pos d; omega
+  have hO := mkObj_ok maxDomainSize extension o hm hext hobj
+  have hd : d ≤ log2 maxDomainSize := (Nat.le_log2 hm).mpr hn
+  have hsz : (if mode = .other then dstB else srcB).size = 2 ^ d * ncols := by
+    by_cases h : mode = .other
+    · rw [if_pos h]; exact hdst h
+    · rw [if_neg h]; exact hsrc
+  obtain ⟨out, e, s, c⟩ := ntt_forward o _ hO mode dstB srcB d ncols nphase nblock hd hnc (by rw [hsz])
+  exact ⟨out, e, by rw [s, hsz], c⟩
+
+/-- C03: when the destination is a different buffer the source is left unchanged — for ALL arguments (any size, also
+    sizes that are not powers of two or exceed the domain: if the call returns at all, the source is unchanged) -/
+theorem C03_source_unchanged (o : Obj) (dstB srcB : Buf) (size ncols nphase nblock : Nat) (d s' : Buf)
+    (h : ntt o .other dstB srcB size ncols nphase nblock false false = .ok (d, s')) : s' = srcB :=
+  ntt_other_src o dstB srcB size ncols nphase nblock false false d s' h
+
+/-- C03: size 0 or zero columns is a no-op (every buffer keeps its content) -/
+theorem C03_noop (o : Obj) (mode : DstMode) (dstB srcB : Buf) (size ncols nphase nblock : Nat)
+    (h : ncols = 0 ∨ size = 0) :
+    ntt o mode dstB srcB size ncols nphase nblock false false = .ok (if mode = .other then dstB else srcB, srcB) :=
+  ntt_noop o mode dstB srcB size ncols nphase nblock false false h
+
+/-- non-vacuity: a constructed object exists for every maximum domain size up to 2^32, and the hypotheses of the main
+    statement are satisfiable (size 4 inside an object of size 8, 3 columns, in place) -/
+example : ∀ m, m ≤ 2 ^ 32 → ∃ o, mkObj m 1 = some o := by
+  intro m hm
+  apply mkObj_some
+  by_cases h0 : m = 0
+  · subst h0; decide
+  · have : ¬ (32 < Nat.log2 m) := by
+      intro h
+      have := (Nat.le_log2 h0).mp (show 33 ≤ Nat.log2 m from h)
+      omega
+    show Nat.log2 m ≤ 32
+    omega
+example : ∃ o out, mkObj 8 1 = some o ∧
+    ntt o .same #[] (Array.replicate (2 ^ 2 * 3) 1#64) (2 ^ 2) 3 3 2 false false = .ok (out, out) := by
+  obtain ⟨o, ho⟩ := mkObj_some 8 1 (by decide)
+  obtain ⟨out, e, _⟩ := C03_forward_transform 8 1 o ho (by omega) 2 (by omega) 3 3 2 (by omega) .same #[]
+    (Array.replicate (2 ^ 2 * 3) 1#64) (by simp) (by simp)
+  exact ⟨o, out, ho, e⟩
+
 end GoldilocksVerif.C03
